@@ -210,15 +210,45 @@ async fn exec_inner(t: Trace) -> Outcome {
     let mut viol: Option<Violation> = None;
     // witness = connection 0
     let wit = w.open("10.0.0.1", false);
-    w.apply(&Action::line(wit, "NICK wit")).await;
-    w.apply(&Action::line(wit, "USER wit 0 * :Witness")).await;
+    // every way of completing registration starts the keep-alive: by USER, by NICK, or by CAP END after both
+    match t.run_seed % 3 {
+        0 => {
+            w.apply(&Action::line(wit, "NICK wit")).await;
+            w.apply(&Action::line(wit, "USER wit 0 * :Witness")).await;
+        }
+        1 => {
+            w.apply(&Action::line(wit, "USER wit 0 * :Witness")).await;
+            w.apply(&Action::line(wit, "NICK wit")).await;
+        }
+        _ => {
+            w.apply(&Action::line(wit, "CAP LS 302")).await;
+            w.apply(&Action::line(wit, "NICK wit")).await;
+            w.apply(&Action::line(wit, "USER wit 0 * :Witness")).await;
+            w.apply(&Action::line(wit, "CAP END")).await;
+        }
+    }
     // w.apply(&Action::line(wit, "JOIN #k")).await;
     let mut subs: Vec<Subj> = vec![];
     for (i, p) in pats.iter().enumerate() {
         let c = w.open(&format!("10.0.0.{}", i + 2), false);
         let nick = format!("s{}", i);
-        w.apply(&Action::line(c, &format!("NICK {}", nick))).await;
-        w.apply(&Action::line(c, &format!("USER {} 0 * :Subject", nick))).await;
+        match (t.run_seed / 3 + i as u64) % 3 {
+            0 => {
+                w.apply(&Action::line(c, &format!("NICK {}", nick))).await;
+                w.apply(&Action::line(c, &format!("USER {} 0 * :Subject", nick))).await;
+            }
+            1 => {
+                w.apply(&Action::line(c, "CAP REQ :multi-prefix")).await;
+                w.apply(&Action::line(c, &format!("USER {} 0 * :Subject", nick))).await;
+                w.apply(&Action::line(c, &format!("NICK {}", nick))).await;
+                w.apply(&Action::line(c, "CAP END")).await;
+                out.count("registered_by_cap_end", 1);
+            }
+            _ => {
+                w.apply(&Action::line(c, &format!("USER {} 0 * :Subject", nick))).await;
+                w.apply(&Action::line(c, &format!("NICK {}", nick))).await;
+            }
+        }
         out.count(&format!("pattern.{}", p.kind()), 1);
         subs.push(Subj {
             pat: p.clone(),
